@@ -16,36 +16,39 @@ type Opts struct {
 	OnExclude func(finding string)
 	OnClass   func(class string)
 
-	Pointers       bool // allow pointer fields
-	Unions         int  // 0 none, 1 allowed, 2 at least one
-	Hostile        bool // add unsupported forms (chan, func, anonymous struct, any, error, complex, anonymous containers of unions, …)
-	RareBasics     bool // basic kinds outside randdata's list (uint, uint32, uint64, float32, uintptr)
-	Recursion      bool // self / mutual recursion through slices, maps (and pointers when Pointers)
-	SubPkgs        bool
-	Generics       bool
-	Aliases        bool
-	Embedded       bool
-	StdTypes       bool
-	Spelling       bool // unusual but legal spellings (one-letter names, short package names, shared prefixes …)
-	TagVariety     bool // the full tag spelling catalogue of C09
-	NoIgnoreTag    bool // never put gomacro:"ignore" on a JSON-visible field (C03/C04 domain note)
-	JSONSafe       bool // only shapes whose Go JSON encoding round-trips (no bool/float map keys, no embedded time …)
-	ManySubPkgs    bool // up to 4 imported packages (C07: import lists)
-	ZeroArrays     bool // [0]T arrays (analysis-only properties)
-	NamedRecursion bool // cycles that only go through named maps / slices: type Tree map[string]Tree (analysis-only properties)
-	EmbedNamed     bool // structs may embed an exported named non-struct type (a regular field for encoding/json)
-	ShortModule    bool // the analysed package may have an import path of one or two elements (module at the root)
-	SameNamePkgs   bool // two imported packages may share their package name under different paths (the importing file aliases one)
-	OtherFile      int  // out of 10: share of root declarations placed in the sibling (not analysed) file; 0 = 1
-	DataIgnore     bool // gomacro-data:"ignore" tags (C15)
-	NoValuerNames  bool // no field named Value / Scan (the type receives sql.Valuer / sql.Scanner methods)
-	EnumStress     bool // every enum declaration style of C10
-	UnionStress    bool // near misses, foreign implementers, embedded interfaces, zero-method interfaces (C11)
-	MaxDecls       int
-	MinDecls       int
-	FixedArrays    bool
-	Maps           bool
-	Times          bool
+	Pointers         bool // allow pointer fields
+	Unions           int  // 0 none, 1 allowed, 2 at least one
+	Hostile          bool // add unsupported forms (chan, func, anonymous struct, any, error, complex, anonymous containers of unions, …)
+	RareBasics       bool // basic kinds outside randdata's list (uint, uint32, uint64, float32, uintptr)
+	Recursion        bool // self / mutual recursion through slices, maps (and pointers when Pointers)
+	SubPkgs          bool
+	Generics         bool
+	Aliases          bool
+	Embedded         bool
+	StdTypes         bool
+	Spelling         bool // unusual but legal spellings (one-letter names, short package names, shared prefixes …)
+	TagVariety       bool // the full tag spelling catalogue of C09
+	NoIgnoreTag      bool // never put gomacro:"ignore" on a JSON-visible field (C03/C04 domain note)
+	JSONSafe         bool // only shapes whose Go JSON encoding round-trips (no bool/float map keys, no embedded time …)
+	ManySubPkgs      bool // up to 4 imported packages (C07: import lists)
+	ZeroArrays       bool // [0]T arrays (analysis-only properties)
+	NamedRecursion   bool // cycles that only go through named maps / slices: type Tree map[string]Tree (analysis-only properties)
+	DataIgnoreUnions bool // gomacro-data:"ignore" may sit on a directly union-typed field (C15)
+	ContainerMembers bool // union members that are named slices / maps of unions, outside the analysed file (C02)
+	SameNamePromoted bool // a flattened embedded struct may have a field with the Go name of an outer field, under another JSON key
+	EmbedNamed       bool // structs may embed an exported named non-struct type (a regular field for encoding/json)
+	ShortModule      bool // the analysed package may have an import path of one or two elements (module at the root)
+	SameNamePkgs     bool // two imported packages may share their package name under different paths (the importing file aliases one)
+	OtherFile        int  // out of 10: share of root declarations placed in the sibling (not analysed) file; 0 = 1
+	DataIgnore       bool // gomacro-data:"ignore" tags (C15)
+	NoValuerNames    bool // no field named Value / Scan (the type receives sql.Valuer / sql.Scanner methods)
+	EnumStress       bool // every enum declaration style of C10
+	UnionStress      bool // near misses, foreign implementers, embedded interfaces, zero-method interfaces (C11)
+	MaxDecls         int
+	MinDecls         int
+	FixedArrays      bool
+	Maps             bool
+	Times            bool
 }
 
 func (o *Opts) gated(feature string) bool {
@@ -490,6 +493,29 @@ func (g *gen) addStruct(pkg *Pkg, file *File, exported bool) *tinfo {
 	usedKeys := map[string]bool{}
 	for i := 0; i < n; i++ {
 		f := &Field{}
+		if g.o.Hostile && rapid.IntRange(0, 14).Draw(t, "embedHostile") == 0 {
+			// legal but unsupported embeddings: a pointer to a struct, a predeclared type
+			cands := g.candidates(pkg, func(x *tinfo) bool {
+				return x.cat == "struct" && x.d.Kind == KStruct && x.pkg == pkg && !used[x.d.Name]
+			})
+			if len(cands) > 0 && rapid.Bool().Draw(t, "embedPtr") {
+				e := cands[rapid.IntRange(0, len(cands)-1).Draw(t, "embedPtrRef")]
+				used[e.d.Name] = true
+				f.Embedded, f.Name, f.Type = true, e.d.Name, Ptr(g.refTo(pkg, e))
+				ti.unsupp = true
+				d.Fields = append(d.Fields, f)
+				g.o.class("hostile:embedded_pointer")
+				continue
+			}
+			b := []string{"string", "int", "bool", "float64"}[rapid.IntRange(0, 3).Draw(t, "embedBasic")]
+			if !used[b] {
+				used[b] = true
+				f.Embedded, f.Name, f.Type = true, b, Basic(b)
+				d.Fields = append(d.Fields, f)
+				g.o.class("hostile:embedded_predeclared_type")
+				continue
+			}
+		}
 		if g.o.EmbedNamed && rapid.IntRange(0, 11).Draw(t, "embedNamed") == 0 {
 			// an embedded exported named type that is not a struct: encoding/json treats it as a field named after the type
 			cands := g.candidates(pkg, func(x *tinfo) bool {
@@ -518,12 +544,24 @@ func (g *gen) addStruct(pkg *Pkg, file *File, exported bool) *tinfo {
 				e := cands[rapid.IntRange(0, len(cands)-1).Draw(t, "embedRef")]
 				// avoid promoted-name conflicts (C09 handles them separately)
 				conflict := false
+				sameGoName := false
 				for _, ef := range e.d.Fields {
-					if used[ef.Name] || ef.Embedded || ef.Name == e.d.Name || usedKeys[JSONKey(ef)] {
+					if ef.Embedded || ef.Name == e.d.Name || usedKeys[JSONKey(ef)] {
 						conflict = true
+					}
+					if used[ef.Name] {
+						// same Go name as an outer field: harmless for encoding/json when the JSON keys differ
+						if g.o.SameNamePromoted {
+							sameGoName = true
+						} else {
+							conflict = true
+						}
 					}
 				}
 				if !conflict {
+					if sameGoName {
+						g.o.class("feature:promoted_field_same_go_name_distinct_key")
+					}
 					for _, ef := range e.d.Fields {
 						used[ef.Name] = true
 						usedKeys[JSONKey(ef)] = true
@@ -534,6 +572,10 @@ func (g *gen) addStruct(pkg *Pkg, file *File, exported bool) *tinfo {
 						// a tagged embedded struct is NOT flattened by encoding/json: it nests under the tag name
 						f.Tag = fmt.Sprintf(`json:"%s"`, snake(e.d.Name))
 						g.o.class("feature:tagged_embedded_struct")
+					} else if g.o.TagVariety && rapid.IntRange(0, 5).Draw(t, "embedOptTag") == 0 {
+						// a tag without a name: still flattened
+						f.Tag = `json:",omitempty"`
+						g.o.class("feature:embedded_struct_options_only_tag")
 					}
 					ti.hasUnion = ti.hasUnion || e.hasUnion
 					d.Fields = append(d.Fields, f)
@@ -562,10 +604,16 @@ func (g *gen) addStruct(pkg *Pkg, file *File, exported bool) *tinfo {
 		}
 		if f.Name[0] >= 'A' && f.Name[0] <= 'Z' {
 			f.Tag = g.drawTag(f.Name, "tag")
+			if g.o.DataIgnoreUnions && fti != nil && fti.cat == "union" && ft.K == TRef && rapid.IntRange(0, 2).Draw(t, "dataIgnoreUnion") == 0 {
+				f.Tag = `gomacro-data:"ignore"`
+			}
 			if (strings.Contains(f.Tag, `json:"-"`) || strings.Contains(f.Tag, `gomacro:"ignore"`)) && fti != nil && (fti.cat == "union" || fti.hasUnion) && g.o.gated("union_only_via_ignored_field") {
 				f.Tag = ""
 			}
-			if strings.Contains(f.Tag, "gomacro-data") && fti != nil && (fti.cat == "union" || fti.hasUnion) {
+			if strings.Contains(f.Tag, "gomacro-data") && fti != nil && fti.cat == "union" && ft.K == TRef && g.o.DataIgnoreUnions {
+				// the skipped union stays nil: the value is then kept out of the JSON round trip by the harness
+				g.o.class("feature:data_ignore_on_union_field")
+			} else if strings.Contains(f.Tag, "gomacro-data") && fti != nil && (fti.cat == "union" || fti.hasUnion) {
 				// a skipped union component would stay nil, which is outside the JSON round trip's domain
 				f.Tag = ""
 			}
